@@ -31,7 +31,26 @@ func runC12(c *Ctx) {
 			// a big core whose size is not a multiple of anything convenient (not of a power of two, not of the number
 			// of CPUs): the warriors sit near its top in some placements, elsewhere in others
 			bc.M = []int{65537, 70001, 100003, 131071, 65536 + 16*r.Range(1, 500) + r.Range(1, 15)}[r.Intn(5)]
+			if r.Chance(1, 12) {
+				bc.M = 1<<22 + r.Range(1, 3) // four million cells and a few (rare: hundreds of MiB)
+				bc.C = min(bc.C, 20)
+			}
 			bc.R, bc.W = bc.M, bc.M
+			if r.Chance(1, 5) {
+				// a warrior of more than 2^16 instructions (mostly blank, code at both ends)
+				w := bc.Warriors[0]
+				long := make([]mars.Insn, r.Range(65537, 70000))
+				for i := range long {
+					long[i] = mars.Empty
+				}
+				copy(long, w.Code)
+				copy(long[len(long)-len(w.Code):], w.Code)
+				if r.Bool() {
+					w.Start = len(long) - len(w.Code) + w.Start
+				}
+				w.Code = long
+				c.Inc("warriors_longer_than_65536_instructions")
+			}
 			for _, w := range bc.Warriors {
 				w.Off = []int{bc.M - 1 - r.Intn(12), bc.M - len(w.Code), r.Intn(bc.M), r.Intn(20)}[r.Intn(4)]
 				if w.Off < 0 {
